@@ -2,6 +2,7 @@ import BppProofs.Lemmas.Hmm
 import BppProofs.Lemmas.HmmCache
 import BppProofs.Lemmas.HmmAuto
 import BppProofs.Lemmas.HmmLogPost
+import BppProofs.Lemmas.HmmMarginal
 /-!
 # C13 — HMM likelihood algorithms   (src/Bpp/Numeric/Hmm)
 
@@ -107,6 +108,17 @@ theorem posterior_prob (p : Params ℝ) (hp : NonNegP p) (e0 : Emis ℝ) (he0 : 
     (rescPosterior p e0 es bps).length = es.length + 1
     ∧ ∀ row ∈ rescPosterior p e0 es bps, (∀ x ∈ row, 0 ≤ x) ∧ row.sum = 1 ∧ row.length = p.n :=
   rescPosterior_prob p hp e0 he0 es hes bps hv hpos
+
+/-- … and the posterior of state `j` at position `i` is the exact path marginal: entry `(i, j)` of
+`getHiddenStatesPosteriorProbabilities`, multiplied by the sum over all hidden paths, is the sum
+over the hidden paths that are in state `j` at position `i` (`Hmm.pathMarginal`) -/
+theorem posterior_is_path_marginal (p : Params ℝ) (hp : NonNegP p) (e0 : Emis ℝ) (he0 : NonNegE e0)
+    (es : List (Emis ℝ)) (hes : ∀ e ∈ es, NonNegE e) (bps : List Nat) (hv : ValidBreaks (es.length + 1) bps)
+    (hpos : ∀ c ∈ (rescForward p e0 (mkSites es bps)).scales, 0 < c)
+    (i : Nat) (hi : i < es.length + 1) (j : Nat) (hj : j < p.n) :
+    ∃ row x, (rescPosterior p e0 es bps)[i]? = some row ∧ row[j]? = some x
+      ∧ x * pathSum p e0 (mkSites es bps) = pathMarginal p e0 (mkSites es bps) i j :=
+  rescPosterior_marginal p hp e0 he0 es hes bps hv hpos i hi j hj
 
 /-- per-position likelihoods are consistent with the posteriors: `getLikelihoodForASite` is the
 posterior-weighted mean `Σ_j post(j)·e(j)` of the emissions, hence lies between the smallest and
